@@ -921,6 +921,48 @@ def validate_collate(ctx, traces, meta, name):
     ctx.traces += len(traces)
 
 
+def unbounded_bucket_lemma(ctx):
+    """TLC samples up to 7 utterances; that a bucket of size S which has been fed k indices holds k mod S of them in its
+    partial batch and has yielded k div S full batches -- hence nothing fed is lost and the number of batches after the
+    flush is the loaders' predicted length -- is an inductive invariant for EVERY k (specs/BatchingInd.tla, Apalache,
+    symbolic counter, S = 1..4): base case, inductive step, consequences.  A copy that yields one index late must be
+    refuted (non-vacuity)."""
+    import shutil
+    from concurrent.futures import ThreadPoolExecutor
+
+    from .. import SPECS, apalache
+
+    sizes = (3,) if ctx.quick else (1, 2, 3, 4)
+    jobs = []
+    for sz in sizes:
+        mod = os.path.join(SPECS, "BatchingInd_S%d.tla" % sz)
+        jobs += [(sz, "base", mod, dict(init="Init", inv="IndInv", length=0)),
+                 (sz, "step", mod, dict(init="IndInit", inv="IndInv", length=1)),
+                 (sz, "consequences", mod, dict(init="IndInit", inv="Consequences", length=0))]
+    bad_dir = ctx.subdir("batchingind_bad")
+    with open(os.path.join(SPECS, "BatchingInd.tla")) as f:
+        txt = f.read()
+    good = "IF partial + 1 = S"
+    if good not in txt:
+        raise MachineryError("BatchingInd.tla: yield condition not found")
+    with open(os.path.join(bad_dir, "BatchingInd.tla"), "w") as f:
+        f.write(txt.replace(good, "IF partial = S"))
+    shutil.copy(os.path.join(SPECS, "BatchingInd_S3.tla"), bad_dir)
+    jobs.append((3, "late_yield_must_fail", os.path.join(bad_dir, "BatchingInd_S3.tla"), dict(init="IndInit", inv="IndInv", length=1)))
+    with ThreadPoolExecutor(max_workers=4) as pool:
+        results = list(pool.map(lambda j: apalache.check(j[2], **j[3]), jobs))
+    for (sz, what, _, _), res in zip(jobs, results):
+        d = res.as_dict()
+        d["name"] = "BatchingInd S=%d %s" % (sz, what)
+        ctx.tlc_runs.append(d)
+        if what == "late_yield_must_fail":
+            if res.ok:
+                raise MachineryError("Apalache accepted a bucket that yields one index late: the inductive check is vacuous")
+        elif not res.ok:
+            raise MachineryError("Apalache refutes the bucket lemma (S=%d, %s):\n%s" % (sz, what, res.tail))
+    ctx.count("apalache_inductive_obligations_discharged", len(jobs) - 1)
+
+
 def run(ctx):
     ctx.rule = ("BucketBatchSampler on every exported (idx2bucket, bucket2size, drop) case (quick: all cases "
                 "with n <= 3 plus a seeded sample) with renamed indices / keys; loaders over a real directory "
@@ -967,6 +1009,8 @@ def run(ctx):
 
     recs = B.run_design(ctx)
     lap("design checks (TLC)")
+    unbounded_bucket_lemma(ctx)
+    lap("unbounded bucket lemma (Apalache)")
     rng = ctx.rng
     # --- the loaders of the ranks of a distributed job (before any tensor work in this process: forks)
     dist = start_dist(ctx, recs)
